@@ -90,9 +90,14 @@ Definition disagg_cell (res_new n : nat) (ws : list Q) (fields : list str) (c : 
   else if Qeq_bool (qsum w0) 0 then Err OtherError           (* ZeroDivisionError *)
   else Ok (map (sub_cell fields c) (combine subs (norm_weights w0))).
 
+(* Python: sum(w) == 1 evaluated in binary64.  The exact rational sum of floats whose binary64 sum is 1.0 lies
+   within a few ulps (< 1e-15) of 1; a list whose sum is visibly not 1 (|sum - 1| >= 1e-10, e.g. [0.33333]*3 or
+   1 - 1e-9) is refused.  The model draws the line at 1e-12; sums between 1e-15 and 1e-10 away from 1 are not
+   generated by the harness. *)
+Definition wtol : Q := Qmake 1 1000000000000.
 Definition valid_weights (n : nat) (ws : list Q) : bool :=
   (length ws =? n)%nat && forallb (fun w => Qle_bool 0 w && Qle_bool w 1) ws
-  && Qle_bool (Qabs (qsum ws - 1)) qtol.   (* Python: sum(w) == 1 in binary64; sums within 1e-8..1e-3 of 1 are not generated *)
+  && Qle_bool (Qabs (qsum ws - 1)) wtol.
 Inductive dis_result := DSame | DCells (r : result (list ucell)).   (* DSame: the argument is returned *)
 (* res_tri = period_resolution(triangle) (an input; C13), triangle cumulative and semi-regular *)
 Definition disaggregate_experience (res_tri res_new : nat) (weights : option (list Q)) (fields : list str)
